@@ -19,14 +19,19 @@ COUNT_RE = re.compile(r"^\((\d+) matched, (\d+) didn't(?:, (\d+) not checked)?\)
 
 
 def listing(ctx, case):
-    via, assign, sel = case
+    via, assign, sel = case[:3]
+    rec_sel = case[3] if len(case) > 3 else None     # the connection selected WHILE the history was recorded
     from core import matcher
     from frontends.tui import controller as cmod
     z = symx.z3() if ctx.symbolic else None
     w = ctl.make_world(ctx, 2)
     try:
+        if rec_sel is not None:
+            w.ctl.connection_command(w.conns[rec_sel].name())
         for ci in assign:
             ctl.add_message(w, ci)
+        if rec_sel is not None and sel is None:
+            w.ctl.connection_command('all')
         F = ctl.SymLeaf(ctx, 'filter')
         B = ctl.SymLeaf(ctx, 'break', always=False)
         L = ctl.SymLeaf(ctx, 'listed')
@@ -155,7 +160,12 @@ def obligations(tier):
                 if tier == 'quick' and k == n and sel == 1:
                     continue
                 cases.append(('show', assign, sel))
-    list_cases = [('list', a, s) for a in [(), (0, 1, 0), (0, 0, 1, 1)] for s in (None, 0)]
+    # histories recorded while a connection was selected, listed afterwards under another selection
+    for assign in [(0, 1), (1, 0, 1), (0, 1, 1, 0)]:
+        for rec_sel in (0, 1):
+            for sel in (None, 0, 1):
+                cases.append(('show', assign, sel, rec_sel))
+    list_cases = [('list', a, s) for a in [(), (0, 1, 0), (0, 0, 1, 1)] for s in (None, 0)] + [('list', (0, 1, 0), None, 1)]
     bounds = '<= %d recorded messages on 2 connections (all assignments up to renaming), selection none/A/B, verdict vector symbolic, cap absent or any integer in [0, %d)' % (n, n + 3)
     return [
         Ob('show-messages', 'symx', 'show_messages/_get_matching: shown set, order, cap, counts, idempotence, no state change', FUNCS, bounds, listing, cases=cases,
